@@ -342,4 +342,269 @@ theorem readOk_read (n : Nat) (ih : ReadOkAt env n) :
       | some t => simp only [hp, Fit.bind_ok'] at h2 ⊢; exact h2
       | none => simp only [hp, Fit.bind_misfit'] at h2 ⊢; exact h2
 
+theorem readOk_readFields (n : Nat) (ih : ReadOkAt env n) (hsk : SkipExactAt env n) :
+    ∀ m cs ss ts ps vs bs rest fs, CodecsFor cs ss → encodeFields ps ss vs = some bs →
+    ReadSpec (readFields env (n + 1) cs ts (bs ++ rest) fs) (fieldsFit (ofAvro env m) cs ts vs fs) rest := by
+  intro m cs ss ts ps vs bs rest fs hcs he
+  cases hcs with
+  | nil =>
+    obtain ⟨rfl, rfl, rfl⟩ := encodeFields_nil_inv he
+    simp only [readFields, fieldsFit, List.nil_append]; exact ReadSpec.ok _ _
+  | cons h1 h2 =>
+    obtain ⟨p, ps', v, vs', a, b, rfl, rfl, ha, hb, rfl⟩ := encodeFields_cons_inv he
+    cases ts with
+    | nil => simp only [fieldsFit]; exact ReadSpec.illtyped _ _
+    | cons t ts =>
+      cases t with
+      | none =>
+        simp only [readFields, fieldsFit, Outcome.bind_eq, List.append_assoc]
+        exact ReadSpec.after_skip (hsk.skip _ _ _ _ _ _ h1 ha) (ih.readFields m _ _ _ _ _ _ _ fs h2 hb)
+      | some i =>
+        simp only [readFields, fieldsFit, List.append_assoc]
+        cases hfi : fs[i]? with
+        | none => exact ReadSpec.illtyped _ _
+        | some cur =>
+          simp only [Outcome.bind_eq, Fit.bind_eq]
+          exact ReadSpec.bind (k := fun x => readFields env n _ ts x.2 (listSet fs i x.1))
+            (ih.read m _ _ _ _ _ _ cur h1 ha) (fun g _ => ih.readFields m _ _ _ _ _ _ _ _ h2 hb)
+
+theorem readOk_readItems (n : Nat) (ih : ReadOkAt env n) :
+    ∀ m item s vs es rest acc, CodecFor item s → ItemsEnc s vs es →
+    ReadSpec (readItems env (n + 1) item es.length (es.flatten ++ rest) acc)
+      ((mapFit (fun v => ofAvro env m item v (Codec.zero env item)) vs).bind fun gs => .ok (acc ++ gs)) rest := by
+  intro m item s vs es rest acc hitem henc
+  cases henc with
+  | nil => simp only [List.length_nil, readItems, mapFit, Fit.bind_ok', List.append_nil, List.flatten_nil, List.nil_append]; exact ReadSpec.ok _ _
+  | cons hr ht =>
+    obtain ⟨p, hp⟩ := hr
+    simp only [List.length_cons, readItems, mapFit, List.flatten_cons, List.append_assoc, Outcome.bind_eq, Fit.bind_eq, Fit.pure_eq]
+    rw [Fit.bind_assoc]
+    refine ReadSpec.bind (k := fun x => readItems env n item _ x.2 (acc ++ [x.1])) (ih.read m _ _ _ _ _ _ _ hitem hp) ?_
+    intro g _
+    have := ih.readItems m item s _ _ rest (acc ++ [g]) hitem ht
+    rw [Fit.bind_assoc]
+    simp only [Fit.bind_ok', List.append_assoc, List.cons_append, List.nil_append] at this ⊢
+    exact this
+
+theorem readOk_readArrayBlocks (n : Nat) (ih : ReadOkAt env n) :
+    ∀ m item s bl vs es bs rest acc, CodecFor item s → ItemsEnc s vs es → encBlocks bl es = some bs →
+    ReadSpec (readArrayBlocks env (n + 1) item (bs ++ rest) acc)
+      ((mapFit (fun v => ofAvro env m item v (Codec.zero env item)) vs).bind fun gs => .ok (acc ++ gs)) rest := by
+  intro m item s bl vs es bs rest acc hitem henc hb
+  cases bl with
+  | nil =>
+    obtain ⟨rfl, rfl⟩ := encBlocks_nil_inv hb
+    cases henc
+    simp only [readArrayBlocks, Outcome.bind_eq, Outcome.pure_eq, mapFit, Fit.bind_ok', List.append_nil]
+    rw [rdVarint_write 0 (by unfold inRange; omega)]
+    simp only [Outcome.bind_ok', if_true]
+    exact ReadSpec.ok _ _
+  | cons blk bl =>
+    obtain ⟨k, sized⟩ := blk
+    obtain ⟨rest', hk0, hkl, hk63, hbody63, hrest, rfl⟩ := encBlocks_cons_inv hb
+    have hlenv : vs.length = es.length := henc.length_eq
+    have hsplit : vs = vs.take k ++ vs.drop k := (List.take_append_drop k vs).symm
+    have htake := henc.take k
+    have hdrop := henc.drop k
+    have hlen : (es.take k).length = k := by simp; omega
+    -- the expected value, split at the block boundary
+    rw [hsplit, mapFit_append, Fit.bind_assoc]
+    -- the header
+    have hdr : ∀ tail : Bytes,
+        (blockCount (if sized then -(k : Int) else (k : Int))
+          ((if sized then writeVarint ((es.take k).flatten.length : Nat) else []) ++ tail)) = .ok (k, tail) := by
+      intro tail
+      unfold blockCount
+      cases sized with
+      | true =>
+        have h2 : (-(k : Int) < 0) := by omega
+        simp only [if_true, h2, Outcome.bind_eq, Outcome.pure_eq]
+        rw [rdVarint_write _ (inRange_of_nat_lt hbody63)]
+        simp only [Outcome.bind_ok']
+        have hw : wrap64 (- -(k : Int)) = k := by unfold wrap64; omega
+        rw [hw]
+        have h3 : ¬ ((k : Int) < 0) := by omega
+        simp [h3]
+      | false =>
+        have h2 : ¬ ((k : Int) < 0) := by omega
+        simp [h2]
+    simp only [readArrayBlocks, Outcome.bind_eq, Outcome.pure_eq]
+    have hcount : rdVarint ((if sized then writeVarint (-(k : Int)) ++ writeVarint ((es.take k).flatten.length : Nat) else writeVarint (k : Int)) ++
+        (es.take k).flatten ++ rest' ++ rest) =
+        .ok ((if sized then -(k : Int) else (k : Int)),
+          (if sized then writeVarint ((es.take k).flatten.length : Nat) else []) ++ ((es.take k).flatten ++ (rest' ++ rest))) := by
+      cases sized with
+      | true =>
+        simp only [if_true, List.append_assoc]
+        exact rdVarint_write _ (by unfold inRange; omega) _
+      | false =>
+        simp only [Bool.false_eq_true, if_false, List.append_assoc, List.nil_append]
+        exact rdVarint_write _ (inRange_of_nat_lt hk63) _
+    rw [hcount]
+    simp only [Outcome.bind_ok']
+    have hne : ¬ ((if sized then -(k : Int) else (k : Int)) = 0) := by cases sized <;> simp <;> omega
+    rw [if_neg hne, hdr]
+    simp only [Outcome.bind_ok']
+    have h1 := ih.readItems m item s _ _ (rest' ++ rest) acc hitem htake
+    rw [hlen] at h1
+    cases hga : mapFit (fun v => ofAvro env m item v (Codec.zero env item)) (vs.take k) with
+    | ok ga =>
+      rw [hga] at h1; simp only [Fit.bind_ok'] at h1 ⊢
+      rcases h1 with h | h
+      · rw [h]; simp only [Outcome.bind_ok']
+        have h2 := ih.readArrayBlocks m item s bl _ _ rest' rest (acc ++ ga) hitem hdrop hrest
+        rw [Fit.bind_assoc]
+        simp only [Fit.bind_ok', List.append_assoc] at h2 ⊢
+        exact h2
+      · rw [h]; exact ReadSpec.fuel _ _
+    | misfit =>
+      rw [hga] at h1; simp only [Fit.bind_misfit'] at h1 ⊢
+      rcases h1 with h | h
+      · rw [h]; exact Or.inl rfl
+      · rw [h]; exact Or.inr rfl
+    | illtyped => exact ReadSpec.illtyped _ _
+
+theorem readOk_readMapItems (n : Nat) (ih : ReadOkAt env n) :
+    ∀ m val s kvs es rest ks0 vs0, CodecFor val s → EntriesEnc s kvs es →
+    ReadSpec (readMapItems env (n + 1) val es.length (es.flatten ++ rest) ks0 vs0)
+      ((mapFit (fun v => ofAvro env m val v (Codec.zero env val)) (kvs.map (·.2))).bind fun gs =>
+        .ok (assignAll (kvs.map (·.1)) gs ks0 vs0)) rest := by
+  intro m val s kvs es rest ks0 vs0 hval henc
+  cases henc with
+  | nil =>
+    simp only [List.length_nil, readMapItems, List.map_nil, mapFit, Fit.bind_ok', assignAll, List.flatten_nil, List.nil_append]
+    exact ReadSpec.ok _ _
+  | @cons kv e kvs' es' hr ht =>
+    obtain ⟨key, v⟩ := kv
+    obtain ⟨hkl, p, d, hp, rfl⟩ := hr
+    simp only [List.length_cons, readMapItems, List.map_cons, mapFit, List.flatten_cons, Outcome.bind_eq, Fit.bind_eq, Fit.pure_eq,
+      encBytes, List.append_assoc]
+    rw [rdVarint_write _ (inRange_of_nat_lt hkl)]
+    simp only [Outcome.bind_ok']
+    have h0 : ¬ ((key.length : Int) < 0) := by omega
+    rw [if_neg h0, next_append]
+    simp only [Outcome.bind_ok']
+    have h1 := ih.read m val s p v d (es'.flatten ++ rest) (Codec.zero env val) hval hp
+    cases hg : ofAvro env m val v (Codec.zero env val) with
+    | ok g =>
+      rw [hg] at h1
+      simp only [Fit.bind_ok']
+      rcases h1 with h | h
+      · rw [h]; simp only [Outcome.bind_ok']
+        have h2 := ih.readMapItems m val s kvs' es' rest (mapAssign key g ks0 vs0).1 (mapAssign key g ks0 vs0).2 hval ht
+        rw [Fit.bind_assoc]
+        simp only [Fit.bind_ok', assignAll] at h2 ⊢
+        exact h2
+      · rw [h]; exact ReadSpec.fuel _ _
+    | misfit =>
+      rw [hg] at h1
+      simp only [Fit.bind_misfit']
+      rcases h1 with h | h
+      · rw [h]; exact Or.inl rfl
+      · rw [h]; exact Or.inr rfl
+    | illtyped => exact ReadSpec.illtyped _ _
+
+theorem readOk_readMapBlocks (n : Nat) (ih : ReadOkAt env n) :
+    ∀ m val s bl kvs es bs rest ks0 vs0, CodecFor val s → EntriesEnc s kvs es → encBlocks bl es = some bs →
+    ReadSpec (readMapBlocks env (n + 1) val (bs ++ rest) ks0 vs0)
+      ((mapFit (fun v => ofAvro env m val v (Codec.zero env val)) (kvs.map (·.2))).bind fun gs =>
+        .ok (assignAll (kvs.map (·.1)) gs ks0 vs0)) rest := by
+  intro m val s bl kvs es bs rest ks0 vs0 hval henc hb
+  cases bl with
+  | nil =>
+    obtain ⟨rfl, rfl⟩ := encBlocks_nil_inv hb
+    cases henc
+    simp only [readMapBlocks, Outcome.bind_eq, Outcome.pure_eq, List.map_nil, mapFit, Fit.bind_ok', assignAll]
+    rw [rdVarint_write 0 (by unfold inRange; omega)]
+    simp only [Outcome.bind_ok', if_true]
+    exact ReadSpec.ok _ _
+  | cons blk bl =>
+    obtain ⟨k, sized⟩ := blk
+    obtain ⟨rest', hk0, hkl, hk63, hbody63, hrest, rfl⟩ := encBlocks_cons_inv hb
+    have hlenv : kvs.length = es.length := henc.length_eq
+    have hsplit : kvs = kvs.take k ++ kvs.drop k := (List.take_append_drop k kvs).symm
+    have htake := henc.take k
+    have hdrop := henc.drop k
+    have hlen : (es.take k).length = k := by simp; omega
+    rw [hsplit, List.map_append, List.map_append, mapFit_append, Fit.bind_assoc]
+    have hdr : ∀ tail : Bytes,
+        (blockCount (if sized then -(k : Int) else (k : Int))
+          ((if sized then writeVarint ((es.take k).flatten.length : Nat) else []) ++ tail)) = .ok (k, tail) := by
+      intro tail
+      unfold blockCount
+      cases sized with
+      | true =>
+        have h2 : (-(k : Int) < 0) := by omega
+        simp only [if_true, h2, Outcome.bind_eq, Outcome.pure_eq]
+        rw [rdVarint_write _ (inRange_of_nat_lt hbody63)]
+        simp only [Outcome.bind_ok']
+        have hw : wrap64 (- -(k : Int)) = k := by unfold wrap64; omega
+        rw [hw]
+        have h3 : ¬ ((k : Int) < 0) := by omega
+        simp [h3]
+      | false =>
+        have h2 : ¬ ((k : Int) < 0) := by omega
+        simp [h2]
+    simp only [readMapBlocks, Outcome.bind_eq, Outcome.pure_eq]
+    have hcount : rdVarint ((if sized then writeVarint (-(k : Int)) ++ writeVarint ((es.take k).flatten.length : Nat) else writeVarint (k : Int)) ++
+        (es.take k).flatten ++ rest' ++ rest) =
+        .ok ((if sized then -(k : Int) else (k : Int)),
+          (if sized then writeVarint ((es.take k).flatten.length : Nat) else []) ++ ((es.take k).flatten ++ (rest' ++ rest))) := by
+      cases sized with
+      | true =>
+        simp only [if_true, List.append_assoc]
+        exact rdVarint_write _ (by unfold inRange; omega) _
+      | false =>
+        simp only [Bool.false_eq_true, if_false, List.append_assoc, List.nil_append]
+        exact rdVarint_write _ (inRange_of_nat_lt hk63) _
+    rw [hcount]
+    simp only [Outcome.bind_ok']
+    have hne : ¬ ((if sized then -(k : Int) else (k : Int)) = 0) := by cases sized <;> simp <;> omega
+    rw [if_neg hne, hdr]
+    simp only [Outcome.bind_ok']
+    have h1 := ih.readMapItems m val s _ _ (rest' ++ rest) ks0 vs0 hval htake
+    rw [hlen] at h1
+    cases hga : mapFit (fun v => ofAvro env m val v (Codec.zero env val)) ((kvs.take k).map (·.2)) with
+    | ok ga =>
+      have hgl : ga.length = ((kvs.take k).map (·.2)).length := mapFit_length _ _ _ hga
+      rw [hga] at h1; simp only [Fit.bind_ok'] at h1 ⊢
+      rcases h1 with h | h
+      · rw [h]; simp only [Outcome.bind_ok']
+        have h2 := ih.readMapBlocks m val s bl _ _ rest' rest
+          (assignAll ((kvs.take k).map (·.1)) ga ks0 vs0).1 (assignAll ((kvs.take k).map (·.1)) ga ks0 vs0).2 hval hdrop hrest
+        rw [Fit.bind_assoc]
+        simp only [Fit.bind_ok']
+        have hassoc : ∀ gb, assignAll ((kvs.take k).map (·.1) ++ (kvs.drop k).map (·.1)) (ga ++ gb) ks0 vs0 =
+            assignAll ((kvs.drop k).map (·.1)) gb (assignAll ((kvs.take k).map (·.1)) ga ks0 vs0).1
+              (assignAll ((kvs.take k).map (·.1)) ga ks0 vs0).2 := by
+          intro gb
+          apply assignAll_append
+          simp only [List.length_map] at hgl ⊢
+          exact hgl.symm
+        simp only [hassoc]
+        exact h2
+      · rw [h]; exact ReadSpec.fuel _ _
+    | misfit =>
+      rw [hga] at h1; simp only [Fit.bind_misfit'] at h1 ⊢
+      rcases h1 with h | h
+      · rw [h]; exact Or.inl rfl
+      · rw [h]; exact Or.inr rfl
+    | illtyped => exact ReadSpec.illtyped _ _
+
+/-- **Read correctness** at every step budget. -/
+theorem readOkAt : ∀ n, ReadOkAt env n := by
+  intro n
+  induction n with
+  | zero =>
+    constructor <;> intros <;> (first
+      | (simp only [read]; exact ReadSpec.fuel _ _)
+      | (simp only [readFields]; exact ReadSpec.fuel _ _)
+      | (simp only [readItems]; exact ReadSpec.fuel _ _)
+      | (simp only [readArrayBlocks]; exact ReadSpec.fuel _ _)
+      | (simp only [readMapItems]; exact ReadSpec.fuel _ _)
+      | (simp only [readMapBlocks]; exact ReadSpec.fuel _ _))
+  | succ n ih =>
+    exact ⟨readOk_read env n ih, readOk_readFields env n ih (skipExactAt env n), readOk_readItems env n ih,
+      readOk_readArrayBlocks env n ih, readOk_readMapItems env n ih, readOk_readMapBlocks env n ih⟩
+
 end Avro
